@@ -115,7 +115,11 @@ Inductive gcase18 :=
 | CGroup (kt : @ktab L) (reg : list (L * option L)) (servers : list iserver) (wsuite : L)
          (parses roundtrip : list oresult) (h256 u : list (L * L))
 | CPrivate (kt : @ktab L) (reg : list (L * option L)) (c : icoth)
-         (parses roundtrip : list oresult) (h256 u : list (L * L)).
+         (parses roundtrip : list oresult) (h256 u : list (L * L))
+(* a roster with ID field [stored] and members [ids], written with Roster.Toml +
+   WriteTomlConfig and read back (ReadTomlConfig + RosterToml.Roster) several times in
+   fresh processes: the distinct results *)
+| CRosterFile (kt : @ktab L) (stored : L) (ids : list oid) (reads : list oresult).
 
 (* ---- decoding ------------------------------------------------------------------ *)
 Definition dec_keyref (ks : list key) (r : option nat) : option (option key) :=
@@ -232,6 +236,35 @@ Definition group_roundtrip_results (H256 U5 : bytes -> bytes) (r : registry) (ws
   | _ => []
   end.
 
+(* ---- roster files ------------------------------------------------------------------- *)
+Definition all_equal_g (l : list gres) : bool :=
+  match l with
+  | [] => true
+  | p :: rest => forallb (gres_eqb p) rest
+  end.
+
+Definition strip_gres (g : gres) : gres :=
+  match g with
+  | GOk ids r => GOk (map strip_identity ids) r
+  | x => x
+  end.
+
+(* clauses 9-11 for one result read back from a roster file *)
+Definition roster_file_clause (stored : bytes) (ids : list identity) (r : gres) : list nat :=
+  match r with
+  | GOk got ro =>
+      clause 9 (res_eqb ro (RId stored)) ++
+      (if list_eqb identity_eqb ids got then []
+       else if list_eqb identity_eqb (map strip_identity ids) (map strip_identity got) then [10]
+       else [11])
+  | _ => [11]
+  end.
+
+Definition check_roster_file (stored : bytes) (ids : list identity) (rs : list gres) : list nat :=
+  dedup (match rs with [] => [7] | _ => [] end ++
+         (if all_equal_g rs then [] else [2]) ++
+         flat_map (roster_file_clause stored ids) rs).
+
 Definition subset_of (obs model : list gres) : bool :=
   forallb (fun o => existsb (gres_eqb o) model) obs.
 
@@ -276,6 +309,16 @@ Definition gagree18 (c : gcase18) : bool :=
           | _, _, _ => false
           end
       end
+  | CRosterFile kt stored ids reads =>
+      match dec_ktab unlit kt with
+      | None => false
+      | Some ks =>
+          match opt_all (map (dec_oid ks) ids), opt_all (map (dec_oresult ks) reads) with
+          | Some is, Some rs =>
+              nonempty rs && forallb (gres_eqb (roster_file_roundtrip (unlit stored) is)) rs
+          | _, _ => false
+          end
+      end
   end.
 
 (* ---- check: the property on the observation --------------------------------------
@@ -289,6 +332,12 @@ Definition gagree18 (c : gcase18) : bool :=
     5 what is re-read after writing differs from what was read only in that an empty
       description has become the writer's default text
     6 a well-formed file is rejected (error or panic)
+    9 roster file: the roster id read back is not the id that was written
+   10 roster file: the identities read back differ from those written, but only in
+      that per-service keys / description / URL are gone (the file format has no
+      place for them)
+   11 roster file: the identities read back differ from those written in keys,
+      addresses or number, or the file could not be read back
     7 undecodable case / no observation (harness error)
     8 a well-formed file was accepted with identities, but nothing could be written
       back and re-read *)
@@ -367,6 +416,15 @@ Definition gcheck18 (c : gcase18) : list nat :=
                 opt_all (map (dec_oresult ks) parses), opt_all (map (dec_oresult ks) rts) with
           | Some c0, Some ps, Some rs => check_obs (coth_wellformed (dec_reg reg) c0) ps rs
           | _, _, _ => [7]
+          end
+      end
+  | CRosterFile kt stored ids reads =>
+      match dec_ktab unlit kt with
+      | None => [7]
+      | Some ks =>
+          match opt_all (map (dec_oid ks) ids), opt_all (map (dec_oresult ks) reads) with
+          | Some is, Some rs => check_roster_file (unlit stored) is rs
+          | _, _ => [7]
           end
       end
   end.
